@@ -34,6 +34,7 @@ import (
 	"os"
 	"regexp"
 	"runtime"
+	"runtime/debug"
 	"path/filepath"
 	"sort"
 	"strconv"
@@ -506,6 +507,23 @@ type vfResp struct {
 	hasVer    bool
 	body      string
 	faulted   bool // the relay did answer the object write of this request with the fault
+	panicked  string
+	stack     string
+}
+
+// vfStatusPanic is the status recorded for a request whose handler panicked through the mux
+// (no HTTP answer exists; a real client would see the connection dropped).
+const vfStatusPanic = 599
+
+// vfDeadlineish: the text of an error / answer that stands for a request deadline of an etcd call
+// (cluster-request-timeout) striking, which on a saturated machine happens without any defect.
+func vfDeadlineish(s string) bool {
+	for _, m := range []string{"context deadline exceeded", "context canceled", "request timed out", "DeadlineExceeded"} {
+		if strings.Contains(s, m) {
+			return true
+		}
+	}
+	return false
 }
 
 func (r vfResp) String() string {
@@ -545,10 +563,26 @@ func vfDo(m *vfAPIMember, rq vfReq, clock *int64, client int) vfResp {
 	rec := httptest.NewRecorder()
 	out := vfResp{req: rq, client: client}
 	out.inv = atomic.AddInt64(clock, 1)
-	m.handler.ServeHTTP(rec, hr)
+	func() {
+		// a panic that escapes the admin mux (the version-attaching middleware runs outside the
+		// recovering one: a failed read of the version key panics through; net/http would drop the
+		// connection) must not kill the test process: it is recorded as the answer of this request
+		defer func() {
+			if p := recover(); p != nil {
+				out.panicked = fmt.Sprint(p)
+				out.stack = string(debug.Stack())
+			}
+		}()
+		m.handler.ServeHTTP(rec, hr)
+	}()
 	out.resp = atomic.AddInt64(clock, 1)
 	out.status = rec.Code
 	out.body = rec.Body.String()
+	if out.panicked != "" {
+		out.status = vfStatusPanic
+		out.body = "panic escaped the admin mux: " + out.panicked
+		return out
+	}
 	if len(out.body) > 4096 && rq.Op != "list" && rq.Op != "get" {
 		out.body = out.body[:4096] + "...(cut)"
 	}
@@ -917,35 +951,61 @@ func TestVerifC18API(t *testing.T) {
 			costDeparture.Round(10*time.Millisecond), costLongHold.Round(10*time.Millisecond), nOversize, vfSmallSendLimit>>10, time.Duration(costOversize).Round(10*time.Millisecond),
 			nHuge, time.Duration(costHuge).Round(10*time.Millisecond)))
 	}()
+	// Cases that cannot be judged because a request deadline struck under load (an etcd call of the
+	// harness or of a request timed out: the outcome of that call is unknown, so the ledger cannot
+	// be applied) are abandoned and replaced by another case (rapid draws a new one); the run is
+	// inconclusive only when more than a third of the cases had to be abandoned.
+	var casesStarted, casesAbandoned int
+	tooMany := func() bool { return casesAbandoned > 3 && casesAbandoned*3 > casesStarted }
+	defer func() {
+		if casesAbandoned > 0 {
+			vf.Note(fmt.Sprintf("%d of %d cases abandoned because a request deadline struck under load", casesAbandoned, casesStarted))
+		}
+	}()
 	rapid.Check(t, func(rt *rapid.T) {
 		round := vfGenRound(rt)
 		pcls := bed.members[0].cls
+		casesStarted++
+		// inconclusive: a deadline under load abandons the case, anything else ends the run (exit 2)
+		inconclusive := func(format string, args ...interface{}) {
+			msg := fmt.Sprintf(format, args...)
+			if !vfDeadlineish(msg) {
+				rt.Fatalf("VF-INCONCLUSIVE %s", msg)
+			}
+			casesAbandoned++
+			vf.Class("case-abandoned:deadline-under-load")
+			pcls.DeletePrefix(lockKey + "/") // whatever a failed Lock/Unlock left behind
+			if tooMany() {
+				rt.Fatalf("VF-INCONCLUSIVE %d of %d cases abandoned because a request deadline struck (machine overloaded?); the last one: %s", casesAbandoned, casesStarted, msg)
+			}
+			rt.Skip("abandoned: " + strings.SplitN(msg, "\n", 2)[0])
+		}
 		var clock int64
 
 		// ---- reset the store, seed it sequentially through the API
 		kvs, err := pcls.GetPrefix(pcls.Layout().ConfigObjectPrefix())
 		if err != nil {
-			rt.Fatalf("VF-INCONCLUSIVE %v", err)
+			inconclusive("%v", err)
 		}
 		for k := range kvs {
 			if err := pcls.Delete(k); err != nil {
-				rt.Fatalf("VF-INCONCLUSIVE %v", err)
+				inconclusive("%v", err)
 			}
 		}
 		model0 := map[string]vfObj{}
 		for _, rq := range round.Seed {
 			rs := vfDo(bed.members[rq.Member], rq, &clock, -1)
 			if rs.status != http.StatusCreated {
-				rt.Fatalf("VF-INCONCLUSIVE sequential seeding %s => %d %s", rq, rs.status, rs.body)
+				inconclusive("sequential seeding %s => %d %s", rq, rs.status, rs.body)
 			}
 			model0[rq.Name] = vfObj{rq.Kind, rq.Note}
 		}
 		stored0, _, v0, err := vfStored(pcls)
 		if err != nil {
-			rt.Fatalf("VF-INCONCLUSIVE %v", err)
+			inconclusive("%v", err)
 		}
 		if !vfModelEq(stored0, model0) {
-			rt.Fatalf("VF-INCONCLUSIVE store after sequential seeding is %s, expected %s", vfModelStr(stored0), vfModelStr(model0))
+			inconclusive("store after sequential seeding is %s, expected %s", vfModelStr(stored0), vfModelStr(model0))
 		}
 
 		// ---- the concurrent round
@@ -967,7 +1027,7 @@ func TestVerifC18API(t *testing.T) {
 				select {
 				case <-stopped:
 				case <-time.After(3 * time.Minute):
-					rt.Fatalf("VF-INCONCLUSIVE the leaving member did not shut down within 3 minutes\n%s", round)
+					inconclusive("the leaving member did not shut down within 3 minutes\n%s", round)
 				}
 			}
 			viaOK, afterOK := false, false
@@ -993,7 +1053,7 @@ func TestVerifC18API(t *testing.T) {
 				bed.members[0].handler.ServeHTTP(rec, httptest.NewRequest("DELETE", APIPrefix+"/status/members/"+lv.name, nil))
 				if rec.Code != http.StatusOK {
 					stop()
-					rt.Fatalf("VF-INCONCLUSIVE purge of %s on the primary => %d %s", lv.name, rec.Code, rec.Body.String())
+					inconclusive("purge of %s on the primary => %d %s", lv.name, rec.Code, rec.Body.String())
 				}
 			}
 			stop()
@@ -1016,7 +1076,7 @@ func TestVerifC18API(t *testing.T) {
 			vf.Class("long-hold-phase-skipped:short-timeout-member-is-blocked-for-ever")
 		} else if len(round.LongHold) > 0 {
 			if err := obsMutex.Lock(); err != nil {
-				rt.Fatalf("VF-INCONCLUSIVE observer Lock: %v", err)
+				inconclusive("observer Lock: %v", err)
 			}
 			h := vfHold{acq: atomic.AddInt64(&clock, 1)}
 			t0 := time.Now()
@@ -1069,7 +1129,7 @@ func TestVerifC18API(t *testing.T) {
 					break waitLongHold
 				case <-deadline:
 					tick.Stop()
-					rt.Fatalf("VF-INCONCLUSIVE long-hold requests still blocked after 5 minutes\n%s", round)
+					inconclusive("long-hold requests still blocked after 5 minutes\n%s", round)
 				case <-tick.C:
 					if uerr != nil {
 						continue
@@ -1100,7 +1160,7 @@ func TestVerifC18API(t *testing.T) {
 			}
 			tick.Stop()
 			if uerr != nil {
-				rt.Fatalf("VF-INCONCLUSIVE observer Unlock: %v", uerr)
+				inconclusive("observer Unlock: %v", uerr)
 			}
 			costLongHold += time.Since(t0)
 			vf.Class("long-hold-phase")
@@ -1192,7 +1252,7 @@ func TestVerifC18API(t *testing.T) {
 		select {
 		case <-joined:
 		case <-time.After(5 * time.Minute):
-			rt.Fatalf("VF-INCONCLUSIVE clients still blocked after 5 minutes\n%s", round)
+			inconclusive("clients still blocked after 5 minutes\n%s", round)
 		}
 		close(stop)
 		owg.Wait()
@@ -1261,6 +1321,20 @@ func TestVerifC18API(t *testing.T) {
 		// does not leave the mutex free, every later request then answers 503 after 10 s.
 		trouble := obsErr
 		for _, r := range all {
+			if r.panicked != "" {
+				if !vfDeadlineish(r.panicked) {
+					vf.Violation(rt, fmt.Sprintf("panic-escaped-the-admin-mux op=%s panic=%s", r.req.Op, vfPanicClass(r.panicked)),
+						"%s: the handler panicked through the mux (a real client gets no answer): %s\n%s\n%s", r.req, r.panicked, r.stack, history())
+					return
+				}
+				// a failed etcd call (deadline) of the middleware that attaches the version: treated as
+				// the failed request it stands for
+				vf.Class("panic-escaped-the-admin-mux:request-deadline")
+				if trouble == "" {
+					trouble = fmt.Sprintf("%s: %s", r.req, r.body)
+				}
+				continue
+			}
 			if lockTimeout(r) {
 				vf.Class("503-lock-timeout-while-another-member-held-the-lock")
 				continue
@@ -1307,7 +1381,7 @@ func TestVerifC18API(t *testing.T) {
 		}
 		lockKeys, lerr := pcls.GetPrefix(lockKey + "/")
 		if lerr != nil {
-			rt.Fatalf("VF-INCONCLUSIVE %v", lerr)
+			inconclusive("%v", lerr)
 		}
 		if len(lockKeys) > 0 {
 			var ks []string
@@ -1326,7 +1400,7 @@ func TestVerifC18API(t *testing.T) {
 			return
 		}
 		if trouble != "" {
-			rt.Fatalf("VF-INCONCLUSIVE %s\n%s", trouble, history())
+			inconclusive("%s\n%s", trouble, history())
 		}
 		if obsViol != "" {
 			vf.Violation(rt, "mutation-inside-another-members-critical-section", "%s\n%s", obsViol, history())
@@ -1352,7 +1426,7 @@ func TestVerifC18API(t *testing.T) {
 		}
 		stored, _, vEnd, err := vfStored(pcls)
 		if err != nil {
-			rt.Fatalf("VF-INCONCLUSIVE %v", err)
+			inconclusive("%v", err)
 		}
 		if vEnd != v0+k {
 			vf.Violation(rt, "final-version-not-v0-plus-successes", "version was %d, %d mutations succeeded, stored version is %d\n%s", v0, k, vEnd, history())
@@ -1424,7 +1498,7 @@ func TestVerifC18API(t *testing.T) {
 			rs := vfDo(m, vfReq{Member: mi, Op: "list"}, &clock, -1)
 			got, err := vfParseList(rs.body)
 			if rs.status != 200 || err != nil {
-				rt.Fatalf("VF-INCONCLUSIVE listing on %s: %d %v", m.name, rs.status, err)
+				inconclusive("listing on %s: %d %v", m.name, rs.status, err)
 			}
 			if !vfModelEq(got, cur) {
 				vf.Violation(rt, "listing-differs-from-replay-in-version-order", "GET /objects on %s gives %s, replay gives %s\n%s", m.name, vfModelStr(got), vfModelStr(cur), history())
